@@ -54,6 +54,7 @@ def run(tier):
     jobs.append(('numfmt', [os.path.join(C.HARNESS, 'numfmt.cpp')], ['-lquadmath'], [['classes', str(C.SEED), '20000']]))
     jobs.append(('models', [os.path.join(C.HARNESS, 'models.cpp')], ['-lquadmath'], [['exact', str(C.SEED), '1'], ['cmp', str(C.SEED), '100'], ['real', str(C.SEED), '200']]))
     jobs.append(('dims_box', [os.path.join(C.HARNESS, 'dims_box.cpp')], [], [['1', str(C.SEED), '200']]))
+    jobs.append(('slots', [os.path.join(C.HARNESS, 'slots.cpp')], [], [[str(C.SEED), '200']]))
     dparts, _, _ = gen_dirs.sources(g['qs'], g['members'])
     jobs.append(('dirs', [C.gen_file(n, t) for n, t in dparts], ['-lquadmath'], [['dirs', str(C.SEED), '300'], ['angles', str(C.SEED), '300']]))
     bparts, bks = gen_battery.sources(qs)
